@@ -35,6 +35,16 @@ def DICT(k, v):
     return ("dict", k, v)
 
 
+def PYTUP(*tys):
+    """result type of a function returning a python tuple with non-scalar components, e.g. (key, list)"""
+    return ("pytup", list(tys))
+
+
+def SORTED_DICT(k, v):
+    """sortedcontainers.SortedDict: a dict whose popitem(0) yields the smallest key"""
+    return ("dict", k, v, "sorted")
+
+
 class Unsupported(Exception):
     """the code (or a contract) left the supported subset -> exit 2, never a violation"""
 
